@@ -329,6 +329,44 @@ pub fn run(out: &mut Out, thorough: bool, seed: u64, extra: &[String]) {
             }
         }
     }
+    // ---------------------------------------------------------------- every degree above the line-by-line range, up to 2^17 (in-harness oracles)
+    if part == "all" || part == "tables" {
+        let ks: Vec<usize> = if thorough { (10..=17).collect() } else { vec![17, 10 + (seed as usize % 7)] };
+        for k in ks {
+            let n = 1usize << k; let slots = n / 2;
+            let cls = format!("high-k{}", k);
+            let qs: Vec<u64> = match std::panic::catch_unwind(|| hu::get_primes(2 * n as u64, 60, 3)) { Ok(p) => p.iter().map(|m| m.value()).collect(), Err(_) => continue };
+            let s = match make(SchemeType::CKKS, n, &qs, 0, true, None) { Some(s) => s, None => { out.raw(&format!("!FAIL ckks_high {} setup :: context for a supported degree refused # {}", k, cls)); continue } };
+            let res = std::panic::catch_unwind(std::panic::AssertUnwindSafe(|| -> Option<String> {
+                let enc = CKKSEncoder::new(s.ctx.clone());
+                let map = enc.verif_index_map();
+                let mut seen = vec![false; n];
+                for &x in map.iter() { let x = x as usize; if x >= n || seen[x] { return Some(format!("index map is not a permutation of 0..N (entry {})", x)); } seen[x] = true; }
+                if map.len() != n { return Some(format!("index map has {} entries", map.len())); }
+                let vals: Vec<num_complex::Complex64> = (0..slots).map(|i| num_complex::Complex64::new(((i * 37 + 11) % 257) as f64 / 16.0 - 8.0, ((i * 101 + 7) % 129) as f64 / 32.0 - 2.0)).collect();
+                for (li, pid) in s.levels().iter().enumerate() {
+                    let scale = 2f64.powi(if li == 0 { 70 } else { 40 });      // the first level also takes the > 64-bit magnitude path
+                    let p = enc.encode_c64_array_new(&vals, Some(*pid), scale);
+                    let d = enc.decode_new(&p);
+                    // rounding (N/2 per coefficient spread over N slots) + double-precision FFT error, generously
+                    let tol = (n as f64) / scale + 1e-7;
+                    if let Some(i) = (0..slots).find(|&i| (d[i] - vals[i]).norm() > tol) { return Some(format!("level {}: decode(encode(v))[{}] = {} instead of {} (tolerance {:.2e})", li, i, d[i], vals[i], tol)); }
+                    // short input: zero padded
+                    let short = &vals[..slots / 3 + 1];
+                    let d2 = enc.decode_new(&enc.encode_c64_array_new(short, Some(*pid), scale));
+                    if let Some(i) = (0..slots).find(|&i| (d2[i] - if i < short.len() { short[i] } else { num_complex::Complex64::new(0.0, 0.0) }).norm() > tol) { return Some(format!("level {}: short input slot {} wrong", li, i)); }
+                    // single real value and integer: every slot equals it
+                    let d3 = enc.decode_new(&enc.encode_f64_single_new(-3.25, Some(*pid), scale));
+                    if let Some(i) = (0..slots).find(|&i| (d3[i] - num_complex::Complex64::new(-3.25, 0.0)).norm() > tol) { return Some(format!("level {}: single real value, slot {} wrong", li, i)); }
+                }
+                None }));
+            match res {
+                Ok(None) => out.raw(&format!("!OK ckks_high {} levels={} # {}", k, s.levels().len(), cls)),
+                Ok(Some(w)) => out.raw(&format!("!FAIL ckks_high {} :: {} # {}", k, w, cls)),
+                Err(_) => { let m = LAST_PANIC.with(|p| p.borrow().clone()); out.raw(&format!("!FAIL ckks_high {} :: panicked: {} # {}", k, m.replace('\n', " "), cls)); }
+            }
+        }
+    }
     if part == "tables" { return; }
     if part == "all" || part == "chain0" { witnesses(out, &mut r); }
     // ---------------------------------------------------------------- encoding / decoding over chains, levels, entry points
